@@ -28,6 +28,9 @@ func devMain(args []string) {
 	solver := fs.String("solver", "z3", "solver binary")
 	maxp := fs.Int("maxpaths", 0, "path budget")
 	fs.Parse(args[2:])
+	if os.Getenv("GOSYM_PROFILE") != "" {
+		profileSites = map[string]int{}
+	}
 	pkgPath, fn := args[0], args[1]
 	P, _, _, err := LoadProgram("/verif/harness", []string{"./" + pkgPath})
 	if err != nil {
@@ -55,6 +58,13 @@ func devMain(args []string) {
 		}
 		b, _ := json.MarshalIndent(v, "", " ")
 		fmt.Println("VIOLATION:", string(b))
+	}
+	if profileSites != nil {
+		for _, k := range sortedKeys(profileSites) {
+			if profileSites[k] > 200 {
+				fmt.Println("QSITE", profileSites[k], k)
+			}
+		}
 	}
 	var fl []string
 	for _, k := range sortedKeys(st.Funcs) {
